@@ -164,6 +164,28 @@ def apply_mod(data, mod):
             occs[zero[0]] = 1.0
         data.mo = MolecularOrbitals("restricted", mo.norba, mo.norbb, occs, np.array(mo.coeffs),
                                     None if mo.energies is None else np.array(mo.energies), None, np.zeros_like(occs))
+    elif op == "tiny_cube_values":
+        if data.cube is not None:
+            d = np.array(data.cube.data, dtype=float)
+            d.flat[:: max(1, d.size // 7)] = 3.5e-120
+            d.flat[1] = -2.0e-310
+            data.cube = attrs.evolve(data.cube, data=d)
+    elif op == "mo_aminusb_neg":
+        # beta-majority open shell
+        data = apply_mod(data, {"op": "mo_aminusb"})
+        data.mo.occs_aminusb = -np.array(data.mo.occs_aminusb)
+    elif op == "unsorted_centres":
+        # shells not grouped by centre (orbital coefficient rows permuted along: same wavefunction)
+        shells = list(data.obasis.shells)
+        if len(shells) >= 3 and len({sh.icenter for sh in shells}) >= 2 and data.mo is not None and data.mo.kind != "generalized":
+            starts = np.cumsum([0] + [sh.nbasis for sh in shells])
+            order = list(range(len(shells)))
+            order.append(order.pop(0))  # first shell goes last
+            rows = np.concatenate([np.arange(starts[i], starts[i + 1]) for i in order])
+            obasis = MolecularBasis([shells[i] for i in order], data.obasis.conventions, data.obasis.primitive_normalization)
+            mo = data.mo
+            mo = MolecularOrbitals(mo.kind, mo.norba, mo.norbb, mo.occs, np.ascontiguousarray(mo.coeffs[rows]), mo.energies, mo.irreps, mo.occs_aminusb)
+            data = attrs.evolve(data, obasis=obasis, mo=mo, one_rdms={})
     elif op == "known_extras":
         # optional data the writers look for in `extra`
         norb = data.mo.norb if data.mo is not None and data.mo.kind != "generalized" else 0
@@ -307,7 +329,8 @@ def apply_mod(data, mod):
 ELEMENTS = [1, 2, 3, 6, 7, 8, 9, 11, 14, 16, 17, 26, 35]
 TITLES = ["water", "Created by sim", "frame", "a title with  spaces", "x", "12", "$$", "END of story",
           "@<TRIPOS>", "3", "H 0 0 0", "MODEL", "two lines\nas a PDB file with two TITLE records gives", "$$$$", "END",
-          "@<TRIPOS>MOLECULE", " leading and trailing blanks "]
+          "@<TRIPOS>MOLECULE", " leading and trailing blanks ", "dos line ending\r\nsecond line", "old mac\rline", "tab\tinside",
+          "form\x0cfeed"]
 
 
 def random_mol_fields(rng, natom=None, with_bonds=False, with_charges=False, title=True,
